@@ -804,7 +804,59 @@ def rule_shared_qos_wiring(R):
     _r(R)
 
 
+def rule_prim(R):
+    """multi-byte integers are big-endian on the wire (MQTT 5 1.5.2, 1.5.3), in both directions: every serde primitive of
+    the serializer for a 16 / 32 / 64-bit integer pushes `v.to_be_bytes()` of its argument, and every primitive of the
+    deserializer that yields such an integer builds it with `from_be_bytes` from bytes taken in stream order.  (A byte swap
+    in one of these functions garbles every length prefix, packet identifier and integer property at once.)"""
+    f = R.f
+    n = 0
+    nde = 0
+    for name, b in sorted(f.bodies.items()):
+        if f.in_fuzzing(b) or b.kind != "assoc_fn":
+            continue
+        if "ser::MqttSerializer" in name and "Serializer>::serialize_" in name and b.fn_name in (
+                "serialize_u16", "serialize_u32", "serialize_u64", "serialize_i16", "serialize_i32", "serialize_i64"):
+            n += 1
+            R.touch(b)
+            t = b.local_term(0)
+            calls = [x for x in walk(t) if isinstance(x, tuple) and x[0] == "call"]
+            be = [x for x in calls if is_call(x, "to_be_bytes") and x[3] and peel(x[3][0]) == ("param", "v")]
+            other = [x for x in calls if is_call(x, "to_le_bytes", "to_ne_bytes", "swap_bytes", "rotate_left", "rotate_right", "reverse")]
+            pushed = any(is_call(x, "push_bytes") and any(y in be for y in walk(x)) for x in calls)
+            R.ob("prim/%s" % b.fn_name, bool(be) and not other and pushed,
+                 "MqttSerializer::%s pushes the big-endian bytes of its argument (found %s)" % (b.fn_name, show(t)[:100]), where=b.span)
+        if "de::deserializer::MqttDeserializer" in name:
+            # every place of the deserializer that assembles an integer from bytes (wherever a helper was folded to)
+            t = b.local_term(0)
+            calls = [x for x in walk(t) if isinstance(x, tuple) and x[0] == "call"]
+            frm = [x for x in calls if is_call(x, "from_be_bytes")]
+            other = [x for x in calls if is_call(x, "from_le_bytes", "from_ne_bytes", "swap_bytes", "rotate_left", "rotate_right", "reverse")]
+            if not frm and not other:
+                continue
+            nde += len(frm)
+            R.touch(b)
+            okb = bool(frm) and not other
+            # an explicit array of single-byte reads must be in stream order: `[pop()?, pop()?]`
+            for x in frm:
+                a = peel(x[3][0]) if x[3] else ("unknown",)
+                if a[0] == "agg" and a[1] == "array":
+                    bbs = []
+                    for el in a[5]:
+                        cs = [y for y in walk(el) if isinstance(y, tuple) and y[0] == "call" and is_call(y, "pop")]
+                        bbs.append(cs[0][1] if cs else None)
+                    if None not in bbs:
+                        okb = okb and bbs == sorted(bbs) and len(set(bbs)) == len(bbs)
+            R.ob("prim/%s" % b.fn_name, okb,
+                 "MqttDeserializer::%s builds the integer with from_be_bytes from bytes in stream order (found %s)" % (b.fn_name, show(t)[:100]),
+                 where=b.span)
+    R.floor("prim/serializer", n, 6, "integer primitives of the serializer")
+    R.floor("prim/deserializer", nde, 4, "big-endian integer reads of the deserializer")
+
+
+
 def run(R):
+    R.rule("prim", rule_prim)
     R.rule("qos-wiring", rule_shared_qos_wiring)
     R.rule("corr", rule_correlation)
     R.rule("props", rule_props)
